@@ -219,7 +219,10 @@ func (f *Frame) extern(c *cursor, site ssa.Instruction, name string, sig *types.
 		okk := app(SBool, "atoi.ok", s)
 		er := fresh("atoierr", SIface)
 		e.assume(eq(eq(er, nilIface), okk), er.S)
-		return []Term{f.fromInt(ite(okk, app(SInt, "atoi", s), intLit(0)), sig.Results().At(0).Type()), er}
+		// a non-empty string of decimal digits never converts to a negative number
+		// (on overflow Atoi returns the largest int)
+		e.assumeAbout(Term{fmt.Sprintf("(=> (and (>= (slen %s) 1) (forall ((j Int)) (=> (and (<= 0 j) (< j (slen %s))) (and (<= 48 (sbyte %s j)) (<= (sbyte %s j) 57))))) (>= (atoi %s) 0))", s.S, s.S, s.S, s.S, s.S), SBool}, s, er)
+		return []Term{f.fromInt(app(SInt, "atoi", s), sig.Results().At(0).Type()), er}
 	case "strconv.ParseInt":
 		// ParseInt(s, 0, 0): value of the C-style constant, or an error
 		s := arg(0)
@@ -261,6 +264,7 @@ func (f *Frame) extern(c *cursor, site ssa.Instruction, name string, sig *types.
 		w := e.define(f.pfx+"dw", widthAt(s, intLit(0)))
 		nonEmpty := gt(sLen(s), intLit(0))
 		f.runeFacts(s, intLit(0), r, w, nonEmpty)
+		e.U.axiom("(assert (forall ((s Str) (a Int)) (! (=> (and (<= 0 a) (< a (slen s))) (and (= (width_at (ssub s a (slen s)) 0) (width_at s a)) (= (rune_at (ssub s a (slen s)) 0) (rune_at s a)))) :pattern ((ssub s a (slen s))))))", "ssub")
 		// a substring that runs to the end of its parent decodes like the parent
 		return []Term{f.fromInt(ite(nonEmpty, r, intLit(65533)), sig.Results().At(0).Type()), f.fromInt(ite(nonEmpty, w, intLit(0)), sig.Results().At(1).Type())}
 	case "unicode/utf8.RuneLen":
